@@ -1706,7 +1706,8 @@ func (fr *Frame) sliceOp(st *State, x *ssa.Slice) {
 
 func (ex *Exec) mapComps(mt *types.Map) (has, val, ln string, ks, vs Sort) {
 	ks, vs = ex.tm.SortOf(mt.Key()), ex.tm.SortOf(mt.Elem())
-	id := sanitize(string(ks)) + "." + sanitize(string(vs))
+	// keyed by the Go key and element types (not their sorts): maps of different Go types never alias
+	id := sanitize(ex.tm.CompName(mt.Key())) + "." + sanitize(ex.tm.CompName(mt.Elem()))
 	return "MH." + id, "MV." + id, "ML." + id, ks, vs
 }
 
